@@ -7,7 +7,8 @@
    cn is the (terms x radii) array of cos^n coefficients, a list of rows.
    Over an arbitrary carrier (field_ops); rationals (Legendre coefficients)
    enter as numerator/denominator pairs.  numpy.linalg.inv of the (upper
-   triangular) Legendre coefficient matrix is modelled by back substitution. *)
+   triangular, rational) Legendre coefficient matrix is modelled by back
+   substitution in exact rational arithmetic. *)
 From Coq Require Import List Arith Bool ZArith.
 From PA Require Import base.MatL.
 Import ListNotations.
@@ -71,19 +72,45 @@ Definition CHmat (order : nat) (odd : bool) : list (list rat) :=
   let os := orders order odd in
   map (fun k => map (fun i => lcoef i k) os) os.
 
+(* inverse of the (upper triangular, rational) matrix CH by back substitution in
+   exact rational arithmetic: row i of the inverse from the rows below it *)
+Definition rat_sub (a b : rat) : rat := rat_add a (rat_scale (-1) 1 b).
+Definition rat_mul (a b : rat) : rat := rat_red ((fst a * fst b)%Z, (snd a * snd b)%positive).
+Definition rat_inv (a : rat) : rat :=
+  match fst a with
+  | Z0 => (0%Z, 1%positive)
+  | Zpos p => (Zpos (snd a), p)
+  | Zneg p => (Zneg (snd a), p)
+  end.
+Definition rrow_sub (a b : list rat) : list rat := map (fun p => rat_sub (fst p) (snd p)) (combine a b).
+Definition rrow_scale (k : rat) (a : list rat) : list rat := map (rat_mul k) a.
+Fixpoint rat_back_subst (U : list (list rat)) (b : list (list rat)) (i : nat) : list (list rat) :=
+  match U, b with
+  | u :: U', bi :: b' =>
+    let xs := rat_back_subst U' b' (S i) in
+    let coefs := skipn (S i) u in
+    let s := fold_left (fun acc p => rrow_sub acc (rrow_scale (fst p) (snd p))) (combine coefs xs) bi in
+    rrow_scale (rat_inv (nth i u (0%Z, 1%positive))) s :: xs
+  | _, _ => []
+  end.
+Definition rat_ident (n : nat) : list (list rat) :=
+  map (fun i => map (fun j => if Nat.eqb i j then (1%Z, 1%positive) else (0%Z, 1%positive)) (seq 0 n)) (seq 0 n).
+(* inv(CH) *)
+Definition CHinv (order : nat) (odd : bool) : list (list rat) :=
+  let U := CHmat order odd in rat_back_subst U (rat_ident (length U)) 0.
+
 Section Repr.
   Variable A : Type.
   Variable O : field_ops A.
   Variable piA : A.
+  Variable ofz : Z -> A.            (* embedding of the integers *)
   Notation zero := (f0 O).  Notation one := (f1 O).
   Notation add := (fadd O). Notation sub := (fsub O). Notation mul := (fmul O).
   Notation div := (fdiv O). Notation opp := (fopp O). Notation eqb := (feqb O).
   Notation mat := (list (list A)).
 
-  Fixpoint ofnat (n : nat) : A := match n with 0 => zero | S n' => add (ofnat n') one end.
-  Definition ofZ (z : Z) : A :=
-    match z with Z0 => zero | Zpos p => ofnat (Pos.to_nat p) | Zneg p => opp (ofnat (Pos.to_nat p)) end.
-  Definition ofrat (q : rat) : A := div (ofZ (fst q)) (ofnat (Pos.to_nat (snd q))).
+  Definition ofnat (n : nat) : A := ofz (Z.of_nat n).
+  Definition ofrat (q : rat) : A := div (ofz (fst q)) (ofz (Zpos (snd q))).
 
   Definition sum (l : list A) : A := fold_left add l zero.
   Definition ncols (M : mat) : nat := length (hd [] M).
@@ -112,23 +139,9 @@ Section Repr.
       interleave ev od
     else mmul CS cn.
 
-  (* x = U^-1 b for an upper triangular U (rows from the top), b a list of rows *)
-  Definition row_sub (a b : list A) : list A := map (fun p => sub (fst p) (snd p)) (combine a b).
-  Definition row_scale (k : A) (a : list A) : list A := map (mul k) a.
-  Definition row_div (a : list A) (k : A) : list A := map (fun v => div v k) a.
-  Fixpoint back_subst (U : mat) (b : mat) (i : nat) : mat :=
-    match U, b with
-    | u :: U', bi :: b' =>
-      let xs := back_subst U' b' (S i) in                      (* solutions for rows below *)
-      let coefs := skipn (S i) u in                            (* U[i][i+1..] *)
-      let s := fold_left (fun acc p => row_sub acc (row_scale (fst p) (snd p))) (combine coefs xs) bi in
-      row_div s (nth i u zero) :: xs
-    | _, _ => []
-    end.
-
-  (* harmonics(): inv(CH) . cn *)
+  (* harmonics(): inv(CH) . cn, the inverse taken in exact rational arithmetic *)
   Definition harmonics (order : nat) (odd : bool) (cn : mat) : mat :=
-    back_subst (map (map ofrat) (CHmat order odd)) cn 0.
+    mmul (map (map ofrat) (CHinv order odd)) cn.
 
   (* uniform_filter1d(row, window, mode='nearest'):
      out[i] = mean_k row[clamp(i + k - window//2)], k = 0..window-1 *)
